@@ -14,7 +14,12 @@ pub enum Sc {
 }
 
 impl Sc {
+    /// kinds 0..2: created by `new` (the polling scanner with `timeout`); kinds 10..12: the same
+    /// scanners created by `Default::default()` (the polling scanner then has timeout zero)
     pub fn new(kind: i64, timeout: i64) -> Sc {
+        if kind >= 10 {
+            return Sc::default(kind - 10);
+        }
         match kind {
             0 => Sc::Cc(ControlChange14BitMessageScanner::new()),
             1 => Sc::Pn(ParameterNumberMessageScanner::new()),
@@ -168,7 +173,7 @@ pub fn exec(tag: i64, inp: &[i64]) -> Vec<i64> {
                 return vec![PANIC];
             }
             let e1 = a == Sc::new(kind, timeout);
-            let e2 = Sc::default(kind) == Sc::new(kind, 0);
+            let e2 = Sc::default(kind % 10) == Sc::new(kind % 10, 0);
             let mut obs = vec![e1 as i64, e2 as i64, 0];
             let mut b = Sc::new(kind, timeout);
             let (mut oa, mut ob, mut oc, mut od) = (Vec::new(), Vec::new(), Vec::new(), Vec::new());
@@ -206,6 +211,16 @@ pub fn random_ops(r: &mut Rng, kind: i64, timeout: i64, maxlen: u64, v: &mut Vec
     }
 }
 
+/// scanner kind (one in five created through `Default`) and its timeout
+fn pick_kind(r: &mut Rng) -> (i64, i64) {
+    let kind = r.below(3) as i64;
+    if r.chance(1, 5) {
+        (kind + 10, 0)
+    } else {
+        (kind, pick_timeout(r, kind))
+    }
+}
+
 fn pick_timeout(r: &mut Rng, kind: i64) -> i64 {
     if kind == 2 {
         r.pick(&polling::TIMEOUTS)
@@ -217,26 +232,26 @@ fn pick_timeout(r: &mut Rng, kind: i64) -> i64 {
 pub fn gen_c15(tier: Tier, seed: u64, em: &mut Emitter) {
     let mut r = Rng::new(seed ^ 0xC15);
     // every ordered pair of channels over an abstracted alphabet (exhaustive depth 3 per pair)
-    for kind in 0..3i64 {
+    for kind in [0i64, 1, 2, 10, 11, 12] {
         let timeout = if kind == 2 { 5 } else { 0 };
         for c1 in 0..16i64 {
             for c2 in 0..16i64 {
                 if c1 == c2 {
                     continue;
                 }
-                let syms: Vec<Vec<i64>> = if kind == 0 {
+                let syms: Vec<Vec<i64>> = if kind % 10 == 0 {
                     vec![vec![0, 176 + c1, 1, 5], vec![0, 176 + c1, 33, 6], vec![0, 176 + c2, 1, 7],
                          vec![0, 176 + c2, 33, 8], vec![0, 240 + c1 % 8, 33, 9]]
                 } else {
                     let mut s = vec![vec![0, 176 + c1, 6, 5], vec![0, 176 + c1, 38, 6], vec![0, 176 + c2, 6, 7],
                          vec![0, 176 + c2, 96, 8], vec![0, 176 + c2, 99, 3], vec![0, 240 + c1 % 4, 6, 9]];
-                    if kind == 2 {
+                    if kind % 10 == 2 {
                         s.push(vec![3, c1, 0, 0]);
                         s.push(vec![4, 5, 0, 0]);
                     }
                     s
                 };
-                let prefix: Vec<i64> = if kind == 0 { vec![] } else {
+                let prefix: Vec<i64> = if kind % 10 == 0 { vec![] } else {
                     vec![0, 176 + c1, 99, 1, 0, 176 + c1, 98, 2, 0, 176 + c2, 101, 1, 0, 176 + c2, 100, 2]
                 };
                 let depth = if tier == Tier::Thorough { 4 } else { 2 };
@@ -278,10 +293,9 @@ pub fn gen_c15(tier: Tier, seed: u64, em: &mut Emitter) {
     // seeded random interleavings of up to 16 channels over the full alphabet
     let n = if tier == Tier::Thorough { 150_000 } else { 6_000 };
     for _ in 0..n {
-        let kind = r.below(3) as i64;
-        let timeout = pick_timeout(&mut r, kind);
+        let (kind, timeout) = pick_kind(&mut r);
         let mut ops = Vec::new();
-        random_ops(&mut r, kind, timeout, if tier == Tier::Thorough { 120 } else { 50 }, &mut ops);
+        random_ops(&mut r, kind % 10, timeout, if tier == Tier::Thorough { 120 } else { 50 }, &mut ops);
         // observe up to three of the channels that occur
         let mut used: Vec<i64> = ops.chunks(4).filter_map(op_channel).collect();
         used.sort();
@@ -310,11 +324,11 @@ pub fn gen_c16(tier: Tier, seed: u64, em: &mut Emitter) {
     }
     // every non-contributing message class after seeded prior histories
     let reps = if tier == Tier::Thorough { 40 } else { 3 };
-    for kind in 0..3i64 {
+    for kind in [0i64, 1, 2, 10, 11, 12] {
         for _ in 0..reps {
-            let timeout = pick_timeout(&mut r, kind);
+            let timeout = if kind >= 10 { 0 } else { pick_timeout(&mut r, kind) };
             let mut prior = Vec::new();
-            let np = random_ops(&mut r, kind, timeout, 30, &mut prior);
+            let np = random_ops(&mut r, kind % 10, timeout, 30, &mut prior);
             let mut emit = |r: &mut Rng, em: &mut Emitter, s: i64, a: i64, b: i64| {
                 let k = r.pick(&[0i64, 1, 5, 6]);
                 let mut inp = vec![kind, timeout, np as i64];
@@ -332,8 +346,7 @@ pub fn gen_c16(tier: Tier, seed: u64, em: &mut Emitter) {
             }
             // all non-contributing controller numbers x sampled values, on a random channel
             for n in 0..128i64 {
-                let contributes = if kind == 0 { n < 64 } else { [6, 38, 96, 97, 98, 99, 100, 101].contains(&n) };
-                if contributes {
+                if contributes(kind, n) {
                     continue;
                 }
                 let vals: Vec<i64> = if tier == Tier::Thorough { (0..128).collect() } else { vec![0, 127, r.below(128) as i64] };
@@ -344,6 +357,67 @@ pub fn gen_c16(tier: Tier, seed: u64, em: &mut Emitter) {
             }
         }
     }
+    // the states in which a scanner is most likely to react: a seeded history, then on channel c
+    // the beginning of a construct (an MSB / a selected number / a pending first value byte),
+    // for the polling scanner possibly followed by a time step around the timeout -- and then a
+    // non-contributing message on the *same* channel (mostly) or elsewhere
+    let n = if tier == Tier::Thorough { 300_000 } else { 12_000 };
+    for _ in 0..n {
+        let (kind, timeout) = pick_kind(&mut r);
+        let k10 = kind % 10;
+        let mut prior = Vec::new();
+        random_ops(&mut r, k10, timeout, 12, &mut prior);
+        let c = r.below(16) as i64;
+        let mk = r.pick(&[0i64, 1, 5, 6]);
+        if k10 == 0 {
+            if r.chance(3, 4) {
+                prior.extend_from_slice(&[mk, 176 + c, r.below(32) as i64, r.below(128) as i64]);
+            }
+            if r.chance(1, 4) {
+                prior.extend_from_slice(&[mk, 176 + c, 32 + r.below(32) as i64, r.below(128) as i64]);
+            }
+        } else {
+            let reg = r.chance(1, 2);
+            if r.chance(5, 6) {
+                prior.extend_from_slice(&[mk, 176 + c, if reg { 101 } else { 99 }, r.below(128) as i64]);
+            }
+            if r.chance(5, 6) {
+                prior.extend_from_slice(&[mk, 176 + c, if reg { 100 } else { 98 }, r.below(128) as i64]);
+            }
+            match r.below(5) {
+                0 => {}
+                1 | 2 => prior.extend_from_slice(&[mk, 176 + c, 6, r.below(128) as i64]),
+                3 => prior.extend_from_slice(&[mk, 176 + c, 38, r.below(128) as i64]),
+                _ => {
+                    prior.extend_from_slice(&[mk, 176 + c, 38, r.below(128) as i64]);
+                    prior.extend_from_slice(&[mk, 176 + c, 6, r.below(128) as i64]);
+                }
+            }
+            if k10 == 2 && r.chance(2, 3) {
+                prior.extend_from_slice(&[4, polling::time_step(&mut r, timeout), 0, 0]);
+            }
+        }
+        let ch = if r.chance(4, 5) { c } else { r.below(16) as i64 };
+        let (s, a, b) = match r.below(6) {
+            0 => (r.pick(&[128i64, 144, 160, 192, 208, 224]) + ch, r.pick(&[6i64, 38, 96, 98, 99, 100, 101, 0, 32, 127]), r.below(128) as i64),
+            1 => (240 + r.below(16) as i64, r.pick(&[6i64, 38, 96, 98, 101, 0, 32]), r.below(128) as i64),
+            _ => {
+                let mut cnum = r.below(128) as i64;
+                while contributes(kind, cnum) {
+                    cnum = r.below(128) as i64;
+                }
+                (176 + ch, cnum, r.below(128) as i64)
+            }
+        };
+        let mut inp = vec![kind, timeout, (prior.len() / 4) as i64];
+        inp.extend_from_slice(&prior);
+        inp.extend_from_slice(&[r.pick(&[0i64, 1, 5, 6]), s, a, b]);
+        em.emit_k(&format!("transparent-after-open-construct/kind={}", kind), 160, inp);
+    }
+}
+
+fn contributes(kind: i64, n: i64) -> bool {
+    if kind % 10 == 0 { n < 64 } else { [6, 38, 96, 97, 98, 99, 100, 101].contains(&n) }
 }
 
 pub fn gen_c17(tier: Tier, seed: u64, em: &mut Emitter) {
@@ -351,13 +425,12 @@ pub fn gen_c17(tier: Tier, seed: u64, em: &mut Emitter) {
     let n = if tier == Tier::Thorough { 150_000 } else { 8_000 };
     let maxlen = if tier == Tier::Thorough { 100 } else { 40 };
     for _ in 0..n {
-        let kind = r.below(3) as i64;
-        let timeout = pick_timeout(&mut r, kind);
+        let (kind, timeout) = pick_kind(&mut r);
         let mut ops1 = Vec::new();
-        let n1 = random_ops(&mut r, kind, timeout, maxlen, &mut ops1);
+        let n1 = random_ops(&mut r, kind % 10, timeout, maxlen, &mut ops1);
         let mut inp = vec![kind, timeout, n1 as i64];
         inp.extend_from_slice(&ops1);
-        random_ops(&mut r, kind, timeout, maxlen, &mut inp);
+        random_ops(&mut r, kind % 10, timeout, maxlen, &mut inp);
         em.emit_k(&format!("reset-copy/kind={}", kind), 170, inp);
     }
 }
